@@ -419,3 +419,138 @@ Proof.
   - intros e He. destruct (H e He) as [Fe Pe]. split; [exact Fe|]. split; [exact Pe|apply le_dbl_max].
   - split; [exact F|]. split; [exact P|exact E].
 Qed.
+
+(* ======================= round 4: the lower half and a coarse accuracy ===== *)
+(* one iteration never goes below the smaller of the average and the error *)
+Lemma step_lower_real : forall a e n lo : R, fmt a -> fmt e -> fmt lo -> 0 <= a -> 0 <= e -> 2 <= n ->
+  lo <= a -> lo <= e -> lo <= rnd (a + rnd (rnd (e - a) / n)).
+Proof.
+  intros a e n lo Fa Fe Fl Pa Pe Pn La Le.
+  rewrite <- (rnd_id _ Fl). apply rnd_le.
+  assert (Hi : 0 < / n <= / 2).
+  { split; [apply Rinv_0_lt_compat; lra|apply Rinv_le_contravar; lra]. }
+  destruct (Rle_lt_dec a e) as [Ge|Lt].
+  - assert (D0 : 0 <= rnd (e - a)) by (apply rnd_nonneg; lra).
+    assert (Q0 : 0 <= rnd (rnd (e - a) / n)).
+    { apply rnd_nonneg. unfold Rdiv. destruct Hi. nra. }
+    lra.
+  - set (x := a - e).
+    assert (Px : 0 < x) by (unfold x; lra).
+    replace (e - a) with (- x) by (unfold x; ring). rewrite rnd_opp.
+    replace (- rnd x / n) with (- (rnd x / n)) by (unfold Rdiv; ring). rewrite rnd_opp.
+    assert (Dx : 0 <= rnd x) by (apply rnd_nonneg; lra).
+    assert (Q : rnd (rnd x / n) <= x).
+    { assert (CaseA : fmt x -> rnd (rnd x / n) <= x).
+      { intro Fx. rewrite (rnd_id _ Fx). rewrite <- (rnd_id _ Fx) at 2. apply rnd_le. unfold Rdiv. destruct Hi. nra. }
+      destruct (fmt_dec_half a) as [Hh|Nh].
+      - destruct (Rle_lt_dec (a / 2) e) as [St|Far].
+        + apply CaseA. unfold x. apply diff_format; try assumption; [lra|right; left; exact St].
+        + assert (Q2 : rnd (rnd x / n) <= a / 2).
+          { rewrite <- (rnd_id _ Hh). apply rnd_le.
+            assert (rnd x <= a) by (rewrite <- (rnd_id _ Fa); apply rnd_le; unfold x; lra).
+            unfold Rdiv. destruct Hi. nra. }
+          assert (a / 2 < x) by (unfold x; lra). lra.
+      - apply CaseA. unfold x. apply diff_format; try assumption; [lra|right; right; exact Nh]. }
+    unfold x in *. lra.
+Qed.
+
+Definition inv2 (A B : f64) (st : f64 * f64) : Prop :=
+  mean_inv B st /\ 1 <= RV (snd st) /\ RV A <= RV (fst st).
+
+Definition err_ok2 (A B : f64) (x : f64) : Prop := fin x /\ RV A <= RV x <= RV B.
+
+Lemma err_ok2_ok : forall A B x, 0 <= RV A -> err_ok2 A B x -> err_ok B x.
+Proof. intros A B x PA (F & L & U). split; [exact F|]. split; lra. Qed.
+
+Lemma inv2_update : forall A B st err, 0 <= RV A -> inv2 A B st -> err_ok2 A B err -> inv2 A B (soe_update st err).
+Proof.
+  intros A B st err PA (M & N1 & LA) O. pose proof (err_ok2_ok A B err PA O) as O1.
+  pose proof (mean_update_inv B st err M O1) as M'.
+  destruct (update_value B st err M O1) as (V & H2 & Nb).
+  split; [exact M'|]. split; [unfold soe_update; cbn [snd]; exact (proj1 Nb)|].
+  rewrite V. destruct M as (Fa & [Pa Ba] & Cn & Hz). destruct O as (Fe & Le & Ue).
+  apply step_lower_real; try apply fmt_RV; try lra.
+  apply cnt_step_two; assumption.
+Qed.
+
+Lemma inv2_first : forall A B err, 0 <= RV A -> RV A <= RV B -> err_ok2 A B err -> inv2 A B (soe_update (F64.zero, F64.zero) err).
+Proof.
+  intros A B err PA AB O. pose proof (err_ok2_ok A B err PA O) as O1.
+  assert (PB : 0 <= RV B) by lra.
+  pose proof (mean_update_inv B _ err (mean_inv_init B PB) O1) as M'.
+  destruct O as (Fe & Le & Ue). destruct (soe_first_step err Fe ltac:(lra)) as [F1 E1].
+  split; [exact M'|]. split.
+  - unfold soe_update. cbn [snd]. exact (proj2 (cnt_step F64.zero cnt_zero)).
+  - rewrite E1. exact Le.
+Qed.
+
+Lemma inv2_loop : forall A B errf step l skip st, 0 <= RV A ->
+  (forall e, In e l -> err_ok2 A B (errf e)) -> inv2 A B st -> inv2 A B (snd (soe_loop errf step skip l st)).
+Proof.
+  intros A B errf step l skip st PA. revert skip st. induction l as [|e r IH]; intros skip st He Hs; [exact Hs|].
+  cbn [soe_loop]. destruct skip as [|k].
+  - destruct (Nat.leb step (length (e :: r))); [|exact Hs].
+    unfold soe_visit.
+    assert (H1 : inv2 A B (soe_update st (errf e))) by (apply inv2_update; [exact PA|exact Hs|apply He; left; reflexivity]).
+    specialize (IH (Nat.pred step) _ (fun x Hx => He x (or_intror Hx)) H1).
+    destruct (soe_loop errf step (Nat.pred step) r (soe_update st (errf e))) as [r' st']. exact IH.
+  - specialize (IH k st (fun x Hx => He x (or_intror Hx)) Hs).
+    destruct (soe_loop errf step k r st) as [r' st']. exact IH.
+Qed.
+
+(* operator() on a non empty dataset: min error <= every average <= max error *)
+Lemma running_mean_two_sided : forall (A B : f64) errf d,
+  d <> [] -> 0 <= RV A -> (forall e, In e d -> err_ok2 A B (errf e)) ->
+  let avg := fst (snd (soe_loop errf 1 0 d (F64.zero, F64.zero))) in
+  fin avg /\ RV A <= RV avg <= RV B /\ snd (soe_eval errf d) = [F64.neg avg].
+Proof.
+  intros A B errf d Hne PA H avg.
+  destruct d as [|e r]; [contradiction|].
+  assert (Oe : err_ok2 A B (errf e)) by (apply H; left; reflexivity).
+  assert (AB : RV A <= RV B) by (destruct Oe as (_ & L & U); lra).
+  assert (PB : 0 <= RV B) by lra.
+  assert (I : inv2 A B (snd (soe_loop errf 1 0 (e :: r) (F64.zero, F64.zero)))).
+  { cbn [soe_loop length Nat.leb Nat.pred]. unfold soe_visit.
+    pose proof (inv2_loop A B errf 1 r 0%nat _ PA (fun x Hx => H x (or_intror Hx)) (inv2_first A B (errf e) PA AB Oe)) as J.
+    destruct (soe_loop errf 1 0 r (soe_update (F64.zero, F64.zero) (errf e))) as [r' st']. exact J. }
+  destruct (running_mean_finite B errf 1 (e :: r) PB (fun x Hx => err_ok2_ok A B _ PA (H x Hx))) as (Fa & Ba & E).
+  fold avg in Fa, Ba. destruct I as (_ & _ & LA). fold avg in LA.
+  split; [exact Fa|]. split; [lra|exact E].
+Qed.
+
+(* ---- coarse accuracy: the exact mean of the same errors lies in the same
+        interval, so the binary64 running mean is within (max - min) of it ---- *)
+Definition Rsum (l : list R) : R := fold_right Rplus 0 l.
+Definition Rmean (l : list R) : R := Rsum l / INR (length l).
+
+Lemma Rsum_bounds : forall lo hi l, (forall x, In x l -> lo <= x <= hi) ->
+  lo * INR (length l) <= Rsum l <= hi * INR (length l).
+Proof.
+  intros lo hi l. induction l as [|x xs IH]; intro H.
+  - cbn. lra.
+  - cbn [Rsum fold_right length]. rewrite S_INR. fold (Rsum xs).
+    specialize (IH (fun y Hy => H y (or_intror Hy))). specialize (H x (or_introl eq_refl)). lra.
+Qed.
+
+Lemma Rmean_bounds : forall lo hi l, l <> [] -> (forall x, In x l -> lo <= x <= hi) -> lo <= Rmean l <= hi.
+Proof.
+  intros lo hi l Hne H. pose proof (Rsum_bounds lo hi l H) as [L U]. unfold Rmean.
+  assert (P : 0 < INR (length l)) by (apply lt_0_INR; destruct l; [contradiction|cbn; lia]).
+  split.
+  - apply Rmult_le_reg_r with (INR (length l)); [exact P|]. unfold Rdiv. rewrite Rmult_assoc, Rinv_l by lra. lra.
+  - apply Rmult_le_reg_r with (INR (length l)); [exact P|]. unfold Rdiv. rewrite Rmult_assoc, Rinv_l by lra. lra.
+Qed.
+
+Lemma running_mean_accuracy_coarse : forall (A B : f64) errf d,
+  d <> [] -> 0 <= RV A -> (forall e, In e d -> err_ok2 A B (errf e)) ->
+  let avg := fst (snd (soe_loop errf 1 0 d (F64.zero, F64.zero))) in
+  Rabs (RV avg - Rmean (map (fun e => RV (errf e)) d)) <= RV B - RV A.
+Proof.
+  intros A B errf d Hne PA H avg.
+  destruct (running_mean_two_sided A B errf d Hne PA H) as (_ & Bd & _). fold avg in Bd.
+  assert (M : RV A <= Rmean (map (fun e => RV (errf e)) d) <= RV B).
+  { apply Rmean_bounds.
+    - destruct d; [contradiction|discriminate].
+    - intros x Hx. apply in_map_iff in Hx. destruct Hx as (e & <- & He). destruct (H e He) as (_ & L & U). lra. }
+  apply Rabs_le. lra.
+Qed.
